@@ -606,8 +606,8 @@ fn printable(rng: &mut Rng, len: usize, level: Level) -> Vec<u8> {
 
 fn array_len(rng: &mut Rng, o: &RecOpts) -> usize {
     match rng.below(24) {
-        0..=2 => 0,
-        3..=5 => 1,
+        0 => 0,
+        1..=5 => 1,
         6 => o.max_array_len,
         7 => rng.urange(0, o.max_array_len),
         _ => rng.urange(2, 9.min(o.max_array_len.max(2))),
@@ -812,6 +812,10 @@ pub fn gen_record(rng: &mut Rng, hdr: &HeaderDesc, o: &RecOpts) -> RecDesc {
         3 => 0xfff ^ (1 << rng.below(12)),
         _ => (rng.next_u64() & 0xfff) as u16,
     };
+    if rng.chance(3, 5) {
+        // keep most records "mapped" so that span-dependent checks see them
+        r.flags &= !0x4;
+    }
     r.ref_id = if nref == 0 || rng.chance(1, 8) { None } else { Some(if rng.chance(1, 6) { nref - 1 } else { rng.usize_below(nref) }) };
     r.pos = if r.ref_id.is_none() && !rng.chance(1, 6) { None } else { gen_pos_free(rng, o.level) };
     r.mapq = match rng.below(10) {
@@ -1357,11 +1361,8 @@ pub fn rec_class(r: &RecDesc) -> String {
     } else {
         "foreign"
     };
-    let mut types: Vec<&str> = r.aux.iter().map(|e| e.1.type_code()).collect();
-    types.sort();
-    types.dedup();
     format!(
-        "{name}|r{}|p{}|q{}|{cg}|k{}|{seq}{letters}|Q{}|m{}{}|t{}|a{}",
+        "{name}|r{}|p{}|q{}|{cg}|k{}|{seq}{letters}|Q{}|m{}|a{}",
         r.ref_id.is_some() as u8,
         pc(r.pos),
         match r.mapq {
@@ -1370,15 +1371,34 @@ pub fn rec_class(r: &RecDesc) -> String {
             Some(254) => "254",
             _ => "n",
         },
-        kinds.len(),
+        match kinds.len() {
+            0 => "0",
+            1 => "1",
+            2..=4 => "2-4",
+            _ => "5+",
+        },
         r.qual.is_some() as u8,
         match (r.mate_ref_id, r.ref_id) {
             (None, _) => "*",
             (a, b) if a == b => "=",
             _ => "o",
         },
-        pc(r.mate_pos),
-        r.tlen.signum(),
-        types.join(""),
+        match r.aux.len() {
+            0 => "0",
+            1..=2 => "1-2",
+            _ => "3+",
+        },
     )
+}
+
+/// One class string per auxiliary field: type code, and for arrays whether they are empty.
+pub fn aux_classes(r: &RecDesc) -> Vec<String> {
+    r.aux
+        .iter()
+        .map(|(_, v)| match v.array_len() {
+            Some(0) => format!("aux:{}:empty", v.type_code()),
+            Some(n) if n > 65_535 => format!("aux:{}:>65535", v.type_code()),
+            _ => format!("aux:{}", v.type_code()),
+        })
+        .collect()
 }
